@@ -27,11 +27,11 @@ const (
 type Binding int
 
 const (
-	BindByName   Binding = iota // Go type name equals the GraphQL type name
-	BindRegister                // Root.RegisterType
-	BindGoDir                   // @go(type: "pkg.Type") directive in the schema
-	BindGoDirBare               // @go(type: "Type")
-	BindGoDirFull               // @go(type: "full/import/path.Type")
+	BindByName    Binding = iota // Go type name equals the GraphQL type name
+	BindRegister                 // Root.RegisterType
+	BindGoDir                    // @go(type: "pkg.Type") directive in the schema
+	BindGoDirBare                // @go(type: "Type")
+	BindGoDirFull                // @go(type: "full/import/path.Type")
 	// Go type names that differ from the GraphQL names, bound by Root.RegisterType only AFTER requests have
 	// met the objects unbound (under object, interface and union typed fields): once a type is registered its
 	// objects are resolved as their concrete type, whatever earlier requests saw
@@ -58,6 +58,7 @@ type World struct {
 	Binding  Binding
 	Mix      *MixSpec
 	faults   map[string]bool
+	panicAt  string // "node.field": that resolver call panics (a fault of the application, recovered by the caller)
 	mu       sync.Mutex
 	calls    []Call
 	nodes    map[string]interface{}
@@ -307,6 +308,9 @@ func (w *World) resolveVia(via, id string, field *ggql.Field, args map[string]in
 	w.mu.Lock()
 	w.calls = append(w.calls, Call{Node: id, Field: field.Name, Args: am, Via: via})
 	w.mu.Unlock()
+	if w.panicAt != "" && w.panicAt == id+"."+field.Name {
+		panic("injected panic in the resolver of " + w.panicAt)
+	}
 	if w.faults[id+"."+field.Name] {
 		return nil, fmt.Errorf("injected failure at %s.%s", id, field.Name)
 	}
@@ -716,6 +720,21 @@ func (w *World) RunExe(exe *ggql.Executable, op string, vars ValMap) *Actual {
 		result["errors"] = ggql.FormErrorsResult(err)
 	}
 	return FromResult(result, w.TakeCalls())
+}
+
+// SetPanic makes the resolver call node.field panic ("" = none).
+func (w *World) SetPanic(site string) { w.panicAt = site }
+
+// RunExeQuiet is RunExe for concurrent callers: the shared call log is left alone.
+func (w *World) RunExeQuiet(exe *ggql.Executable, op string, vars ValMap) *Actual {
+	result, err := w.Root.ResolveExecutable(exe, op, VarsToGo(vars))
+	if result == nil {
+		result = map[string]interface{}{"data": nil}
+	}
+	if err != nil {
+		result["errors"] = ggql.FormErrorsResult(err)
+	}
+	return FromResult(result, nil)
 }
 
 // VarsToGo builds the variable map the way a JSON decoder would.
